@@ -21,7 +21,7 @@ def under_contract():
 
 PROSE = {
  "C01": ("proof", "holds (ReadFrame's open finding is printed as KNOWN-FINDING)", "`CompileFrame/MustCompileFrame` (bytes.Buffer)"),
- "C02": ("proof", "holds for offsets ≤ 2^62", "offsets within 2^62 of MaxInt (index panic in `Cipher`, pedantic, excluded by precondition)"),
+ "C02": ("proof", "holds; one defect found and fixed (key index overflow for offsets next to MaxInt)", "the streaming reader/writer assume a position below 2^62"),
  "C03": ("proof", "holds", "—"),
  "C04": ("proof of the per-frame step and of the reader's decision logic", "holds; three defects found and fixed (cut control frame, UTF-8 state leak, Discard of a cut payload)", "`Reader.Read` sees the reader chain as a black box (§10.1): end-to-end byte equality through the chain is the composition of separately proved contracts, not one theorem; `readData`, `ReadMessage` apart from its control-frame collector, NextFrame's callbacks, more than one extension"),
  "C05": ("proof", "holds", "as C04"),
